@@ -99,6 +99,18 @@ impl Endpoint {
             DtlsState::Failed => 'F', DtlsState::Closed => 'X',
         }
     }
+    /// what `subscribe_state()` (the watch channel upper layers wait on) currently shows
+    pub fn watch_letter(&self) -> char {
+        match &*self.dtls.subscribe_state().borrow() {
+            DtlsState::New => 'N', DtlsState::Handshaking => 'H', DtlsState::Connected(..) => 'C',
+            DtlsState::Failed => 'F', DtlsState::Closed => 'X',
+        }
+    }
+    /// state as text: the Mutex state, followed by `!<watch>` if the watch channel disagrees
+    pub fn state_text(&self) -> String {
+        let (m, w) = (self.letter(), self.watch_letter());
+        if m == w { m.to_string() } else { format!("{m}!{w}") }
+    }
     pub fn keys(&self) -> Option<SessionKeys> {
         match self.state() { DtlsState::Connected(c, _) => Some(c.keys.clone()), _ => None }
     }
@@ -177,6 +189,11 @@ pub fn open_rec(key: &[u8], iv: &[u8], r: &PRec) -> (Vec<u8>, Vec<u8>, Option<Ve
     let cipher = Aes128Gcm::new_from_slice(key).unwrap();
     let res = cipher.decrypt(Nonce::from_slice(&nonce), Payload { msg: &r.body[8..], aad: &a }).ok();
     (nonce.to_vec(), a.to_vec(), res)
+}
+
+/// `.n<explicit nonce>` for a protected record (what the receiver will feed the AEAD as nonce tail)
+pub fn nonce_tag(r: &PRec) -> String {
+    if r.epoch > 0 && (21..=23).contains(&r.ctype) && r.body.len() >= 24 { format!(".n{}", crate::hex(&r.body[..8])) } else { String::new() }
 }
 
 pub fn fnv64(bs: &[u8]) -> u64 {
